@@ -697,7 +697,7 @@ def rule_integer_argument_consulted(ctx, rep, rid: str, where: Callable[[Func], 
         defs = {}
         for a in f.own_nodes():
             if isinstance(a, ast.Assign) and len(a.targets) == 1 and isinstance(a.targets[0], ast.Name) and a.targets[0].id not in defs:
-                if any(isinstance(x, ast.Call) and isinstance(x.func, ast.Name) and x.func.id == "to_integer" for x in ast.walk(a.value)) and _subscripts(a.value, vararg):
+                if any(isinstance(x, ast.Call) and ((isinstance(x.func, ast.Name) and x.func.id == "to_integer") or (isinstance(x.func, ast.Attribute) and x.func.attr in ("_to_uint32", "_to_int32"))) for x in ast.walk(a.value)) and _subscripts(a.value, vararg):
                     defs[a.targets[0].id] = a
                 elif any(isinstance(x, ast.Call) and isinstance(x.func, ast.Name) and x.func.id in raw and any(isinstance(y, ast.Name) and y.id == vararg for y in x.args) for x in ast.walk(a.value)):
                     defs[a.targets[0].id] = a  # through a local helper that converts args[i]
